@@ -956,6 +956,28 @@ func (e *SpecEnv) call(n *SCall) Value {
 			return boolV(tFalse)
 		}
 		return boolV(mkOr(ors...))
+	case "sprintf":
+		// sprintf(format, a, ...): what the model of fmt.Sprintf answers for these operands
+		if len(n.Args) < 1 || len(n.Args) > 4 {
+			specFail("sprintf(format, up to three operands)")
+		}
+		f := e.eval(n.Args[0])
+		terms, sorts := []string{f.S}, []string{sStr}
+		for _, a := range n.Args[1:] {
+			v := e.eval(a)
+			switch v.K {
+			case KRef, KInt, KStr, KBool, KBV8, KOpaque:
+			default:
+				specFail("sprintf: operand is not a scalar")
+			}
+			fnn := "ifaceOf$" + sanitize(x.tc.sortOf(v.T)) + "$" + sanitize(types.TypeString(v.T, nil))
+			x.d.fun(fnn, []string{x.tc.sortOf(v.T)}, sInt)
+			terms = append(terms, "("+fnn+" "+v.S+")")
+			sorts = append(sorts, sInt)
+		}
+		name := fmt.Sprintf("pure.fmt.Sprintf.%d", len(n.Args)-1)
+		x.d.fun(name, sorts, sStr)
+		return Value{K: KStr, T: types.Typ[types.String], S: "(" + name + " " + strings.Join(terms, " ") + ")"}
 	case "heldw":
 		key := x.lockKey(e.eval(n.Args[0]))
 		if e.st.held[key] == "w" {
